@@ -22,6 +22,9 @@ RULE = (
     "Selects) must never be an operand of a join/chain node or the target of a materialization - the engine has to "
     "raise the documented error instead.  Non-trivial = gate held or a refusal / buried-sort situation arose; "
     "distinct = program skeleton x outcome."
+    "  A second model instance composes back-to-back sorts stably (new terms first, earlier terms as tie-breakers, "
+    "as documented for Sort.then); where the order is total only through such earlier terms it is asserted only "
+    "if the tree holds exactly one Sort node, i.e. the engine merged every sort into the outermost ORDER BY. "
 )
 ASSUMPTIONS = [
     "SQLite retains sub-query order in practice, so an order lost in a sub-query is not observable on this database: "
